@@ -1,6 +1,6 @@
 (* Property C17 -- $connections equals the number of open sessions on the database *)
 (* Statements only: each theorem restates the proved lemma's statement and is closed by [exact]. *)
-From NunDB Require Import Model.Base Model.Pending Model.Parse Model.Node Proofs.ConnProofs Model.Net Proofs.NetProofs Proofs.NetProofs2.
+From NunDB Require Import Model.Base Model.Pending Model.Parse Model.Node Proofs.ConnProofs Model.Net Proofs.NetProofs Proofs.NetProofs2 Model.Sched Proofs.SchedProofs Proofs.ConnSchedProofs.
 Local Open Scope Z_scope.
 
 (* ConnInv: for every database the counter equals the number of OPEN sessions that selected it (and every selection names an existing database) *)
@@ -135,3 +135,152 @@ Theorem C17_net_conn_run_from_init :
          ConnInv (fold_left net_nstep evs (init_node u p a pid r c0, [])).
 Proof. exact net_conn_run_from_init. Qed.
 Print Assumptions C17_net_conn_run_from_init.
+
+(* every interleaving at lock granularity: sessions that select (and so leave) databases at the same time, any number of them, any schedule: when every command has finished, the $connections key of every database says what its counter says *)
+Theorem C17_sched_key_agrees :
+  forall (n : node) (ts : list thr) (sched : list nat) (B : Z),
+         Forall usedb_thr ts ->
+         VerInv B n ->
+         0 <= B ->
+         B + Z.of_nat (Datatypes.length sched) <= i32_max ->
+         PubInv n ts ->
+         all_done (snd (run_schedule n ts sched)) ->
+         forall (D : str) (d : db), get_db (fst (run_schedule n ts sched)) D = Some d -> key_agrees d.
+Proof. exact C17_sched_key_agrees. Qed.
+Print Assumptions C17_sched_key_agrees.
+
+(* and the counter equals the number of sessions that selected the database (invariant along the schedule: minus the sessions that were counted out but still carry the old selection) *)
+Theorem C17_sched_counter_agrees :
+  forall (n : node) (ts : list thr) (sched : list nat) (B : Z) (op : list nat),
+         Forall usedb_thr ts ->
+         VerInv B n ->
+         0 <= B ->
+         B + Z.of_nat (Datatypes.length sched) <= i32_max ->
+         PubInv n ts ->
+         CntInv n ts op ->
+         let n' := fst (run_schedule n ts sched) in
+         let ts' := snd (run_schedule n ts sched) in
+         CntInv n' ts' op /\
+         (all_done ts' ->
+          forall (D : str) (d : db),
+          get_db n' D = Some d -> d_conn d = Z.of_nat (Datatypes.length (selected n' op D))).
+Proof. exact C17_sched_counter_agrees. Qed.
+Print Assumptions C17_sched_counter_agrees.
+
+(* with termination: run_par finishes every use-db thread (every publish loop ends) and both equalities hold at the end *)
+Theorem C17_sched_run_par :
+  forall (n : node) (ts : list thr) (sched : list nat) (B : Z) (op : list nat),
+         Forall usedb_thr ts ->
+         VerInv B n ->
+         0 <= B ->
+         B + Z.of_nat (Datatypes.length sched + thread_fuel ts + 64) <= i32_max ->
+         PubInv n ts ->
+         CntInv n ts op ->
+         (3 * Datatypes.length ts <= 64)%nat ->
+         let n' := fst (run_par n ts sched) in
+         let ts' := snd (run_par n ts sched) in
+         all_done ts' /\
+         (forall (D : str) (d : db),
+          get_db n' D = Some d -> key_agrees d /\ d_conn d = Z.of_nat (Datatypes.length (selected n' op D))).
+Proof. exact C17_run_par. Qed.
+Print Assumptions C17_sched_run_par.
+
+(* a use-db released alone does exactly what the sequential handler does, in 1 / 2 / 4 / 6 releases *)
+Theorem C17_sched_usedb_sequential :
+  forall (n : node) (t : thr) (line : str) (rest : list str) (tok name : str) 
+           (user : option str) (B : Z),
+         let c := t_sid t in
+         t_pc t = PcCmd ->
+         t_prog t = line :: rest ->
+         parse_request (trim_char nl line) = POk (RqUseDb tok name user) ->
+         VerInv B n ->
+         0 <= B ->
+         B + 1 < i32_max ->
+         (c < Datatypes.length (n_sess n))%nat ->
+         (forall p : str, s_db (get_sess n c) = Some p -> get_db n p <> None) ->
+         exists (k : nat) (t' : thr),
+           (k <= 6)%nat /\
+           run_alone k n t = (fst (step n c line), t') /\
+           t_replies t' = t_replies t ++ [snd (step n c line)] /\
+           t_prog t' = rest /\
+           at_boundary t' /\
+           t_sid t' = c /\
+           t_hints t' = t_hints t /\
+           k =
+           match get_db n name with
+           | Some d =>
+               if
+                match get_value d match user with
+                                  | Some u => "$$user_" +++ u
+                                  | None => "$$token"
+                                  end with
+                | Some v => (v_val v =? tok)%string
+                | None => false
+                end
+               then match s_db (get_sess n c) with
+                    | Some _ => 6%nat
+                    | None => 4%nat
+                    end
+               else 2%nat
+           | None => 1%nat
+           end.
+Proof. exact usedb_sequential. Qed.
+Print Assumptions C17_sched_usedb_sequential.
+
+(* every release of a use-db thread is one of five steps (idle, count out, count in, write, restart) *)
+Theorem C17_sched_release_ustep :
+  forall (B : Z) (n : node) (t : thr),
+         usedb_thr t -> VerInv B n -> 0 <= B < i32_max -> ustep n t (fst (release n t)) (snd (release n t)).
+Proof. exact release_ustep. Qed.
+Print Assumptions C17_sched_release_ustep.
+
+(* the repaired race: thread 1 reads the counter, thread 2 arrives and publishes 3, thread 1 writes its stale 2 -- and, because of the re-check, publishes again: 3 *)
+Theorem C17_race_without_recheck :
+  rx_look rx_node = Some (Some "1", 1) /\
+         map t_pc (snd (run_schedule rx_node rx_ts [0%nat; 0%nat])) =
+         [PcPub "d" 2 6 (KFinish (RqUseDb "t1" "d" None) ROk); PcCmd] /\
+         rx_look (fst (run_schedule rx_node rx_ts [0%nat; 0%nat; 1%nat; 1%nat; 1%nat; 1%nat])) =
+         Some (Some "3", 3) /\
+         map is_done (snd (run_schedule rx_node rx_ts [0%nat; 0%nat; 1%nat; 1%nat; 1%nat; 1%nat])) =
+         [false; true] /\
+         rx_look (fst (run_schedule rx_node rx_ts [0%nat; 0%nat; 1%nat; 1%nat; 1%nat; 1%nat; 0%nat])) =
+         Some (Some "2", 3) /\
+         map t_pc (snd (run_schedule rx_node rx_ts [0%nat; 0%nat; 1%nat; 1%nat; 1%nat; 1%nat; 0%nat])) =
+         [PcPubNotify "d" 2 2 (KFinish (RqUseDb "t1" "d" None) ROk); PcDone] /\
+         rx_look
+           (fst
+              (run_schedule rx_node rx_ts
+                 [0%nat; 0%nat; 1%nat; 1%nat; 1%nat; 1%nat; 0%nat; 0%nat; 0%nat; 0%nat])) = 
+         Some (Some "3", 3) /\
+         map (fun t : thr => (t_pc t, t_trace t, t_replies t))
+           (snd
+              (run_schedule rx_node rx_ts
+                 [0%nat; 0%nat; 1%nat; 1%nat; 1%nat; 1%nat; 0%nat; 0%nat; 0%nat; 0%nat])) =
+         [(PcDone, ["cmd"; "map.read"; "map.write"; "watchers.read"; "map.write"; "watchers.read"], [ROk]);
+          (PcDone, ["cmd"; "map.read"; "map.write"; "watchers.read"], [ROk])] /\
+         rx_look (fst (run_par rx_node rx_ts [0%nat; 0%nat; 1%nat; 1%nat; 1%nat; 1%nat])) = Some (Some "3", 3).
+Proof. exact C17_race_without_recheck. Qed.
+Print Assumptions C17_race_without_recheck.
+
+(* the version budget cannot be dropped: at version i32::MAX the write of the key is refused and the key stays behind (the recorded saturation finding) *)
+Theorem C17_sched_key_stuck_saturated :
+  Forall usedb_thr sx_ts /\
+         PubInv sx_node sx_ts /\
+         all_done (snd (run_schedule sx_node sx_ts [0%nat; 0%nat; 0%nat; 0%nat])) /\
+         option_map (fun d : db => (key_of_db d, d_conn d, option_map v_ver (get_value d ckey)))
+           (get_db (fst (run_schedule sx_node sx_ts [0%nat; 0%nat; 0%nat; 0%nat])) "$admin") =
+         Some (Some "1", 2, Some i32_max).
+Proof. exact C17_sched_key_stuck_saturated. Qed.
+Print Assumptions C17_sched_key_stuck_saturated.
+
+(* the hypotheses are satisfiable: two sessions on a concrete node, every schedule *)
+Theorem C17_two_sessions_any_schedule :
+  forall sched : list nat,
+         Z.of_nat (Datatypes.length sched) <= 2000000000 ->
+         let n' := fst (run_par rx_node rx_ts sched) in
+         all_done (snd (run_par rx_node rx_ts sched)) /\
+         (forall (D : str) (d : db),
+          get_db n' D = Some d ->
+          key_agrees d /\ d_conn d = Z.of_nat (Datatypes.length (selected n' [0%nat; 1%nat; 2%nat] D))).
+Proof. exact C17_two_sessions_any_schedule. Qed.
+Print Assumptions C17_two_sessions_any_schedule.
